@@ -145,6 +145,7 @@ class Contract:
         bounded=None,
         uses=(),
         result_term=None,
+        raises_props=None,
     ):
         self.target = target
         # sig: one dict, or a list of dicts (alternative signature groups varying together)
@@ -176,6 +177,7 @@ class Contract:
         # exact functional spec of a list result as a list term over the (pre-state) arguments;
         # the function's own `runs`-style clause must state equality with this same term
         self.result_term = result_term
+        self.raises_props = set(raises_props) if raises_props is not None else None
         self.result_alias = result_alias
         self.call_native = call_native
         self.gen = gen
@@ -184,6 +186,7 @@ class Contract:
         # exact functional spec of a list result as a list term over the (pre-state) arguments;
         # the function's own `runs`-style clause must state equality with this same term
         self.result_term = result_term
+        self.raises_props = set(raises_props) if raises_props is not None else None
 
 
 LEMMAS: dict[str, "Lemma"] = {}
